@@ -12,48 +12,65 @@ package account
 // NOT the swaps cache. Everything built on top of them is verified against these two contracts.
 // GetPath needs a non-empty path: for the empty path the tree lookup finds the root, whose Value is nil,
 // and (nil, nil) comes back - callers are checked never to ask for it.
+// wfAccounts: the index maps a name to a live, valid account of exactly that name whose segments slice has
+// no spare capacity. Get itself is VERIFIED against this invariant (an indexed name is answered from the
+// index: the same account on every call); what stays trusted is the slow path getOrCreatePath (locks, the
+// multimap tree, strings.Split/Join) and GetPath/NewRegistry.
+//@ def okAccount(a *Account) bool := validAccount(a) && live(a) && cap(a.segments) == len(a.segments)
+//@ def wfAccounts(as *Registry) bool := as != nil && as.index != nil && live(as.index) && as.swaps != nil
+//@     && (forall n string :: {key(as.index, n)} (n in as.index) ==> okAccount(as.index[n]) && as.index[n].name == n)
 //@ func NewRegistry
 //@   trusted
 //@   modifies nothing
-//@   ensures result != nil && fresh(result) && result.index != nil && result.swaps != nil && fresh(result.index) && fresh(result.swaps) && live(result.index) && live(result.swaps)
+//@   ensures wfAccounts(result) && fresh(result) && fresh(result.index) && fresh(result.swaps) && live(result.swaps)
+//
+//@ func (*Registry).getOrCreatePath
+//@   trusted
+//@   requires wfAccounts(as)
+//@   modifies as.index[*]
+//@   ensures wfAccounts(as) && (result.1 == nil ==> okAccount(result.0))
+//@   ensures forall n string :: {key(as.index, n)} old(n in as.index) ==> (n in as.index) && as.index[n] == old(as.index[n])
 //
 //@ func (*Registry).Get
-//@   trusted
+//@   requires wfAccounts(as)
 //@   modifies as.index[*]
-//@   ensures result.1 == nil ==> validAccount(result.0) && len(result.0.segments) >= 1 && cap(result.0.segments) == len(result.0.segments)
+//@   ensures wfAccounts(as) && (result.1 == nil ==> okAccount(result.0))
+//@   ensures [C05] [C06] @indexed: old(name in as.index) ==> result.1 == nil && result.0 == old(as.index[name]) && result.0.name == name
+//@   ensures @kept: forall n string :: {key(as.index, n)} old(n in as.index) ==> (n in as.index) && as.index[n] == old(as.index[n])
 //
 //@ func (*Registry).GetPath
 //@   trusted
-//@   requires len(segments) >= 1
+//@   requires wfAccounts(as) && len(segments) >= 1
 //@   modifies as.index[*]
-//@   ensures result.1 == nil ==> validAccount(result.0) && len(result.0.segments) >= 1 && cap(result.0.segments) == len(result.0.segments)
+//@   ensures wfAccounts(as) && (result.1 == nil ==> okAccount(result.0))
+//@   ensures forall n string :: {key(as.index, n)} old(n in as.index) ==> (n in as.index) && as.index[n] == old(as.index[n])
 //
 //@ func (*Registry).Create
-//@   requires as != nil && inText(a.Range)
+//@   requires wfAccounts(as) && inText(a.Range)
 //@   modifies as.index[*]
-//@   ensures result.1 == nil ==> validAccount(result.0)
+//@   ensures wfAccounts(as) && (result.1 == nil ==> okAccount(result.0))
 //
 // MustGet / MustGetPath panic on an invalid name (documented); otherwise they are the lookup.
 //@ func (*Registry).MustGet
 //@   panics
-//@   requires as != nil
+//@   requires wfAccounts(as)
 //@   modifies as.index[*]
-//@   ensures validAccount(result) && len(result.segments) >= 1 && cap(result.segments) == len(result.segments)
+//@   ensures wfAccounts(as) && okAccount(result)
 //
 //@ func (*Registry).MustGetPath
 //@   panics
-//@   requires as != nil && len(ss) >= 1
+//@   requires wfAccounts(as) && len(ss) >= 1
 //@   modifies as.index[*]
-//@   ensures validAccount(result) && len(result.segments) >= 1 && cap(result.segments) == len(result.segments)
+//@   ensures wfAccounts(as) && okAccount(result)
 //
 // ValuationAccountFor: the result is always obtained by a by-name registry lookup (first "Income",
 // then the joined path); it neither reads a cache nor writes one (frame: swaps untouched), and the
 // segments of the given account are not written.
 //@ func (*Registry).ValuationAccountFor
-//@   requires as != nil && a != nil && len(a.segments) >= 1
+//@   requires wfAccounts(as) && a != nil && len(a.segments) >= 1
 //@   modifies as.index[*]
 //@   callback MustGet=0
-//@   ensures validAccount(result)
+//@   ensures wfAccounts(as) && okAccount(result)
 //@   ensures @lookup: tlen() == old(tlen()) + 2 && targ("MustGet", 0, old(tlen())) == "Income" && result == tres("MustGet", old(tlen()) + 1)
 //
 // swapName: the name looked up for the counterpart: assets <-> liabilities, income <-> expenses, the
@@ -67,7 +84,7 @@ package account
 // under the given account only.
 //@ func (*Registry).SwapType
 //@   panics
-//@   requires as != nil && validAccount(a) && as.swaps != nil
+//@   requires wfAccounts(as) && validAccount(a)
 //@   modifies as.index[*], as.swaps[*]
 //@   callback Get=0
 //@   ensures @hit: old(a in as.swaps) ==> result == old(as.swaps[a]) && tlen() == old(tlen()) && dom(as.swaps) == old(dom(as.swaps)) && vals(as.swaps) == old(vals(as.swaps))
@@ -99,8 +116,9 @@ package account
 // unchanged, level 0 hides it (nil); in every case NOTHING reachable from the given account is
 // modified - in particular not the account's own segments (frame: only the registry tables change).
 //@ func Shorten$1
-//@   requires validAccount(a) && wfMapping(m) && reg != nil && len(a.segments) >= 1
+//@   requires validAccount(a) && wfMapping(m) && wfAccounts(reg) && len(a.segments) >= 1
 //@   modifies reg.index[*]
+//@   ensures wfAccounts(reg)
 //@   callback MustGetPath=0
 //@   ensures @nomatch: (forall i int :: {m[i]} 0 <= i && i < len(m) ==> !ruleMatches(m[i], a.name)) ==> result == a
 //@   ensures @hidden: (exists i int :: 0 <= i && i < len(m) && ruleMatches(m[i], a.name) && m[i].Level == 0
